@@ -20,4 +20,8 @@ CONTROLS = [
     dict(name="nullable keyword kept on the entry",
          edits=[("cdd/sqlalchemy/utils/parse_utils.py", "        not _param[\"nullable\"] or _handle_null()\n        del _param[\"nullable\"]\n", "        not _param[\"nullable\"] or _handle_null()\n")],
          expect=r"fold-keywords/block.ensures\[2\]"),
+    dict(name="BENIGN: the loop over (shortname, longname) pairs is unrolled by hand for primary_key", benign=True,
+         edits=[("cdd/sqlalchemy/utils/parse_utils.py", "    def _handle_null():", "    if \"primary_key\" in _param:\n        del _param[\"primary_key\"]\n\n    def _handle_null():")]),
+    dict(name="BENIGN: local `_param` renamed throughout sqlalchemy/utils/parse_utils.py", benign=True,
+         edits=[("cdd/sqlalchemy/utils/parse_utils.py", "_param", "entry", "rename")]),
 ]
